@@ -1,4 +1,69 @@
-(** * C16 — dependency diagnostics are exact and stable (statements only; proofs in Proofs/Cycles.v) *)
-From PLS Require Import Check.C16.
-Lemma C16_placeholder : True. Proof. exact I. Qed.
-Print Assumptions C16_placeholder.
+(** * C16 — dependency diagnostics (cycles, scope mismatches) are exact and stable.
+    Statements only. *)
+From PLS Require Import Check.C16 Proofs.Basics Proofs.Cycles.
+
+(** a scope-mismatch warning on fixture F about dependency D is issued only if D is the
+    definition resolution selects for F's file and is narrower than F ... *)
+Theorem C16_scope_mismatch_sound :
+  forall dk roots s F m,
+    In m (mismatches dk roots s F) ->
+    d_file (mm_fixture m) = F /\ In (mm_fixture m) (defs s) /\
+    own_last s F (d_name (mm_fixture m)) = Some (mm_fixture m) /\
+    expected_mismatch dk roots s (mm_fixture m) (mm_dependency m) = true.
+Proof. exact mismatches_sound. Qed.
+Print Assumptions C16_scope_mismatch_sound.
+
+(** ... and whenever that is the case *)
+Theorem C16_scope_mismatch_complete :
+  forall dk roots s F f dn dep,
+    In (d_name f) (file_def_names s F) -> own_last s F (d_name f) = Some f ->
+    In dn (d_deps f) -> dep_target dk roots s f dn = Some dep -> d_scope dep < d_scope f ->
+    In (mk_mismatch f dep) (mismatches dk roots s F).
+Proof. exact mismatches_complete. Qed.
+Print Assumptions C16_scope_mismatch_complete.
+
+(** the scope order is pytest's: function < class < module < package < session
+    (regenerated from src/fixtures/types.rs on every run) *)
+From PLS Require Import Generated.Tables.
+Theorem C16_scope_order_is_pytests :
+  scope_rank = [("Function", 0); ("Class", 1); ("Module", 2); ("Package", 3); ("Session", 4)]%N /\
+  map fst scope_parse = ["function"; "class"; "module"; "package"; "session"] /\
+  map snd scope_parse = map fst scope_rank.
+Proof. repeat split; vm_compute; reflexivity. Qed.
+Print Assumptions C16_scope_order_is_pytests.
+
+(** ** cycles: reachable witnesses (the unbounded soundness/completeness statements are
+    evaluated per case by [cycles_ok]; see DESIGN §7 C16 for what is proved) *)
+Definition top := ["conftest.py"; "vgc"].
+Definition subc := ["conftest.py"; "sub"; "vgc"].
+Definition w_top := mk_facts true 1 [] [] [IDef (mk_ldef "cli" 4 5 4 7 None None [] 4 None false)] [].
+Definition w_sub := mk_facts true 2 [] []
+  [IDef (mk_ldef "cli" 4 5 4 7 None None ["cli"] 0 None false); IUse (mk_lusage "cli" 4 8 11)] [].
+Definition override_sub_first := analyze true top w_top (analyze true subc w_sub empty_index).
+Definition override_top_first := analyze true subc w_sub (analyze true top w_top empty_index).
+Definition lonely_self := analyze true subc w_sub empty_index.
+
+(** overriding a fixture while requesting its same-named parent is not a cycle, in
+    either registration order; requesting one's own name without a parent is one *)
+Example C16_override_is_not_a_cycle :
+  cycles_cold [] [] override_sub_first = [] /\ cycles_cold [] [] override_top_first = [] /\
+  map cy_path (cycles_cold [] [] lonely_self) = [["cli"; "cli"]] /\
+  cycles_ok [] [] lonely_self (cycles_cold [] [] lonely_self) = true.
+Proof. repeat split; vm_compute; reflexivity. Qed.
+Print Assumptions C16_override_is_not_a_cycle.
+
+(** every reported cycle is a real closed dependency chain over the definition-level
+    graph — each step resolved as go-to-definition resolves it from the depending
+    fixture's file — for EVERY index in which no two definitions share
+    (file, line, name), any number of definitions, any graph shape *)
+Theorem C16_cycles_sound :
+  forall dk roots s, keys_unique s ->
+    Forall (fun c => cycle_sound dk roots s c = true) (cycles_cold dk roots s).
+Proof. exact cycles_cold_sound. Qed.
+Print Assumptions C16_cycles_sound.
+
+(** NOT proved (partial): that every cyclic strongly connected component carries a
+    report ([cycles_ok]'s second conjunct).  It is evaluated on the implementation's
+    and the model's answers for every generated graph. *)
+Check C16_cycles_sound :
+  forall dk roots s, keys_unique s -> Forall (fun c => cycle_sound dk roots s c = true) (cycles_cold dk roots s).
